@@ -9,7 +9,7 @@ from vf.choose import RndChooser, composite_from
 
 ID = 'C08'
 RULE = ('(a) REL/RELA sections and DT_REL/DT_RELA/DT_JMPREL tables (reached through a .dynamic section or a PT_DYNAMIC segment, one '
-        'PT_LOAD per table with its own address bias): both classes x both byte orders, 0..200 entries, arbitrary r_offset / symbol '
+        'PT_LOAD per table with its own address bias): both classes x both byte orders, 0..200 (thorough 2000) entries, arbitrary r_offset / symbol '
         'index / type / negative addends, ELF64 MIPS packed r_sym/r_ssym/r_type3/r_type2/r_type; oracle = the model, field by field. '
         '(b) RELR sections and DT_RELR tables: any mix of even address entries and odd bitmap entries with arbitrary bit patterns '
         '(first entry an address); oracle = an expander written from the generic-ABI RELR proposal. (c) ET_REL objects for every '
@@ -18,9 +18,11 @@ RULE = ('(a) REL/RELA sections and DT_REL/DT_RELA/DT_JMPREL tables (reached thro
         'may pair on one field), boundary symbol values / addends / in-place values; get_dwarf_info(relocate_dwarf_sections=True|False) '
         'must give byte for byte the psABI result truncated to the field width in the file byte order, all other bytes unchanged. '
         '(d) unsupported type / wrong REL-RELA flavour / symbol index >= table size / unsupported machine / n64 composite relocation '
-        'must raise ELFRelocationError. Non-trivial: an applied relocation whose exact result is negative or wraps at the field width, a '
+        'must raise ELFRelocationError. (e) 13 vendored clang-14 objects (aarch64/aarch64_be/armv7/armebv7/i386/mips/mipsel/mips64/mips64el/'
+        'ppc64/ppc64le/s390x/x86-64, -g -O1), as compiled and with the RELA-relocated fields pre-filled, read by an independent mini ELF '
+        'reader and relocated by the same oracle. Non-trivial: an applied relocation whose exact result is negative or wraps at the field width, a '
         'big-endian applied field, a RELR bitmap word with >= 2 relocation bits, or an error-path case. Distinct by SHA-1 of the file.')
-N = {'quick': 8000, 'thorough': 500000}
+N = {'quick': 6000, 'thorough': 400000}
 ASSUMPTIONS = ['sh_entsize / DT_RELENT / DT_RELAENT / DT_RELRENT equal the entry size, table sizes are whole multiples of it; table addresses are non-zero and mapped by exactly one PT_LOAD',
                'RELR address entries are even (not necessarily word aligned) and small enough that no decoded address exceeds 2^class; a stream never starts with a bitmap',
                'relocatable objects: sh_addr = 0 (P = r_offset), symbols are not STT_FUNC (no Thumb/descriptor adjustments), S = st_value, fields lie inside the section and do not overlap except LoongArch ADDn/SUBn pairs of equal width on one field',
@@ -347,8 +349,6 @@ def run_tables(ctx, case):
 # (c) + (d): application
 
 def build_apply_file(case):
-    mk = case['mk']
-    spec = REF.MACHINES.get(mk)
     cls = case['cls']
     le = case['le']
     mips64 = cls == 64 and case['em'] == 8
